@@ -2,6 +2,7 @@ import MlModel.Lemmas.RemoteBasic
 import MlModel.Lemmas.RemoteChain
 import MlModel.Lemmas.RemoteIter
 import MlModel.Lemmas.RemoteConc
+import MlModel.Lemmas.RemoteFlight
 import MlModel.Properties.C17
 /-!
 # C14 — remote evaluation is observationally the same as local evaluation
@@ -507,6 +508,72 @@ theorem C14_shutdown_sticky (p : Prog) (env : Env) (srv : Srv) :
     · exact hs
     · rw [run_shutdown]; exact hs
 
+/-! ## C14_shutdown for calls in flight — every interleaving -/
+
+/-- **Every interleaving.**  Take any history of server steps (`start` / `finish` of any requests,
+background tasks, further shutdown requests) that contains a shutdown request — `a ++ shutdown :: b` —
+and any request `i` still in flight after it, *whether its handler started before or after the shutdown
+was requested*.  When that handler finishes, its reply is built from the flag **at that moment**: if the
+evaluation fails (with whatever exception) the reply is the retriable `TimeoutError`, never the raw
+exception; if it succeeds the reply is the value (or `None` under `return_none`). -/
+theorem C14_shutdown_inflight (sys : Sys) (a b : List Step) (i : Nat) (rq : Request)
+    (hin : (sys.run (a ++ .shutdown :: b)).inflight.lookup i = some rq)
+    (hre : rq.returnException = true) (hni : rq.returnImmediately = false) :
+    ((sys.run (a ++ .shutdown :: b)).step (.finish i)).replies =
+      (sys.run (a ++ .shutdown :: b)).replies ++
+        [(i, match (run rq.wire.loads (sys.run (a ++ .shutdown :: b)).srv).1 with
+             | .ok v => Reply.payload (if rq.returnNone then PVal.plain .none else v).dumps rq.compress
+             | .error _ => Reply.payload (.exc shutdownExc.dumps) rq.compress)] := by
+  have hs := run_after_shutdown sys a b
+  simp only [Sys.step, hin, handle_reply rq _ hre hni, hs, if_true]
+  cases (run rq.wire.loads (sys.run (a ++ .shutdown :: b)).srv).1 <;> rfl
+
+/-- …and the client of such a call (`get_result`'s request) raises `TimeoutError` resp. returns the value. -/
+theorem C14_shutdown_inflight_client (sys : Sys) (a b : List Step) (i : Nat) (p : Prog) (env : Env)
+    (hin : (sys.run (a ++ .shutdown :: b)).inflight.lookup i = some (getRequest p)) :
+    ∃ rep, ((sys.run (a ++ .shutdown :: b)).step (.finish i)).replies =
+        (sys.run (a ++ .shutdown :: b)).replies ++ [(i, rep)] ∧
+      (∀ x, (run p (sys.run (a ++ .shutdown :: b)).srv).1 = .error x → decode env rep = .error shutdownExc) ∧
+      (∀ v, (run p (sys.run (a ++ .shutdown :: b)).srv).1 = .ok v → v.isExc = false →
+        decode env rep = .ok (wrap v)) := by
+  have h := C14_shutdown_inflight sys a b i (getRequest p) hin rfl rfl
+  have hw : (getRequest p).wire.loads = p := Prog.loads_dumps p
+  have hc : (getRequest p).compress = true := rfl
+  have hn : (getRequest p).returnNone = false := rfl
+  rw [hw, hc, hn] at h
+  refine ⟨_, h, ?_, ?_⟩
+  · intro x hx
+    simp only [hx, decode_exc, onError, shutdownExc]
+    rfl
+  · intro v hv hne
+    simp only [hv, Bool.false_eq_true, if_false, decode_payload]
+    cases v with
+    | exc x => simp [PVal.isExc] at hne
+    | plain v => rfl
+    | list xs => rfl
+
+/-- Without interleaving the two steps are the atomic handler of the other theorems. -/
+theorem C14_inflight_atomic (sys : Sys) (i : Nat) (rq : Request) (hnew : sys.inflight.lookup i = none) :
+    ((sys.step (.start i rq)).step (.finish i)).replies = sys.replies ++ [(i, (handle rq sys.srv).1)] ∧
+    ((sys.step (.start i rq)).step (.finish i)).srv = (handle rq sys.srv).2 := by
+  have hl : ∀ l : List (Nat × Request), l.lookup i = none → (l ++ [(i, rq)]).lookup i = some rq := by
+    intro l
+    induction l with
+    | nil => intro _; simp [List.lookup]
+    | cons p rest ih =>
+      intro hn
+      obtain ⟨k, x⟩ := p
+      simp only [List.lookup] at hn
+      cases hk : (i == k) with
+      | true => rw [hk] at hn; cases hn
+      | false => rw [hk] at hn; simp only [List.cons_append, List.lookup, hk]; exact ih hn
+  have hl := hl sys.inflight hnew
+  simp only [Sys.step, hl, and_self]
+
+/-- The flag is monotone: no step of any interleaving clears a shutdown request. -/
+theorem C14_shutdown_monotone (sys : Sys) (steps : List Step) (h : sys.srv.shutdown = true) :
+    (sys.run steps).srv.shutdown = true := run_shutdown_mono steps sys h
+
 /-! ## C14_concurrent — requests on distinct objects commute -/
 
 /-- **Concurrent clients.**  Two requests served by distinct server-side objects (two remote iterators,
@@ -605,6 +672,12 @@ example : (remoteNexts 2 3 (requestShutdown s2)).1 =
     [.ok (.val (.plain (.int 1))), .ok (.val (.plain (.int 2))), .error shutdownExc] := by decide
 example : (initIterator (Prog.expr (.traced (.tup [.int 1]) false)).dumps (requestShutdown s0)).1
     = .refused initShutdownExc := by decide
+-- a failing call in flight across the shutdown request (started before, finished after) answers TimeoutError
+example : ((({ srv := s0 } : Sys).run [.start 0 (getRequest (.raise boom)), .start 1 (getRequest (.expr C17.ex1)),
+      .shutdown, .finish 0, .finish 1]).replies.map (fun p => decode {} p.2)) =
+    [.error shutdownExc, .ok (.val (.plain (.int 7)))] := by decide
+example : (({ srv := s0 } : Sys).run ([.start 0 (getRequest (.raise boom))] ++ .shutdown :: [])).inflight.map (·.1)
+    = [0] := by decide
 -- fates
 example : (getResult (.expr C17.ex1) { fate := .deadline } s0).1 = .error tryLongerExc := by decide
 example : (getResult (.expr C17.ex1) { fate := .deadline, aliveAtError := false } s0).1 = .error deadlineStatus := by decide
